@@ -39,9 +39,12 @@ for k in $ks; do
     [ -d $tgt ] || git -C /repo worktree add -q --detach $tgt HEAD
     git -C $tgt checkout -q -- . ; git -C $tgt checkout -q --detach $(git -C /repo rev-parse HEAD)
   fi
+  # modular verification: a change inside a function body can only affect the obligations of functions of the
+  # packages the patch touches (callers see the contract, not the body); a changed type breaks the load instead
+  funcs=$(grep '^+++ b/' $src/patch.diff | sed 's#^+++ b/##' | xargs -n1 dirname | sort -u | sed 's#^#parsley/#; s#$#.#' | paste -sd, -)
   if git -C $tgt apply $src/patch.diff; then
     rm -rf /verif/work_seed2_$id
-    /verif/bin/govc check --repo $tgt --work /verif/work_seed2_$id --known /verif/known_findings.json --props C01,C02,C03,C04,C06,C07,C08,C09,C10,C11,C12,C13,C14,C15 --replays /tmp/seed_replays --timeout ${SEED_TIMEOUT:-15000} > $dst/check_output.txt 2>&1
+    /verif/bin/govc check --func "$funcs" --repo $tgt --work /verif/work_seed2_$id --known /verif/known_findings.json --props C01,C02,C03,C04,C06,C07,C08,C09,C10,C11,C12,C13,C14,C15 --replays /tmp/seed_replays --timeout ${SEED_TIMEOUT:-15000} > $dst/check_output.txt 2>&1
     echo "exit=$?" >> $dst/check_output.txt
     git -C $tgt checkout -q -- .
     rm -rf /verif/work_seed2_$id
